@@ -44,8 +44,55 @@ SPECIAL = [
  'WHILE FALSE\n  OUTPUT "never"\nENDWHILE\nREPEAT\n  OUTPUT "once"\nUNTIL TRUE\n',
 ]
 
+def fmt_num(v):
+    """a literal for the number v (ints and multiples of 1/8), negative values as unary minus"""
+    if isinstance(v, int): return gen.neg_lit(v)
+    t = ('%.3f' % abs(v)).rstrip('0')
+    if t.endswith('.'): t += '0'
+    return ('-' if v < 0 else '') + t
+
+def case_grid(rng):
+    """CASE over INTEGER / REAL / CHAR selectors against single values and inclusive ranges with integral and
+    fractional bounds; the expected clause is computed here (first match wins, else OTHERWISE, else nothing)"""
+    ty = rng.choice(['INTEGER', 'REAL', 'REAL', 'CHAR'])
+    if ty == 'CHAR':
+        pool = [chr(c) for c in range(ord('a'), ord('h'))]
+        lit = lambda v: "'%s'" % v
+    elif ty == 'INTEGER':
+        pool = list(range(-4, 7)); lit = fmt_num
+    else:
+        pool = [k / 4 for k in range(-12, 26)] ; lit = lambda v: fmt_num(v if v != int(v) or rng.random() < 0.5 else int(v))
+        if True: pool = [v if v != int(v) else float(v) for v in pool]
+    clauses = []
+    for i in range(rng.randint(1, 5)):
+        if rng.random() < 0.6:
+            a = rng.choice(pool); b = rng.choice(pool)
+            if rng.random() < 0.8 and b < a: a, b = b, a
+            clauses.append(('range', a, b, 'C%d' % i))
+        else:
+            clauses.append(('value', rng.choice(pool), None, 'C%d' % i))
+    other = rng.random() < 0.6
+    lines = ['DECLARE v : %s' % ty]
+    expect = []
+    for v in rng.sample(pool, min(len(pool), 8)):
+        lines += ['v <- %s' % lit(v), 'CASE OF v']
+        hit = None
+        for kind, a, b, tag in clauses:
+            lines.append('    %s : OUTPUT "%s"' % (lit(a) if kind == 'value' else '%s TO %s' % (lit(a), lit(b)), tag))
+            if hit is None and ((kind == 'value' and v == a) or (kind == 'range' and ty != 'CHAR' and a <= v <= b)):   # ranges are numeric: a CHAR selector matches no range clause
+                hit = tag
+        if other:
+            lines.append('    OTHERWISE : OUTPUT "other"')
+            if hit is None: hit = 'other'
+        lines += ['ENDCASE', 'OUTPUT "."']
+        if hit: expect.append(hit)
+        expect.append('.')
+    return Case(gen.join(lines), limits=dict(steps=20000), meta=dict(gen='case-grid', expect_lines=expect, sample=False))
+
 def generate(tier, rng):
     cases = for_cube(tier)
+    for _ in range(60 if tier == 'quick' else 1500):
+        cases.append(case_grid(rng))
     for s in SPECIAL:
         cases.append(Case(s.encode(), meta=dict(gen='special')))
         cases.append(Case(mode='repl', stdin=s.replace('\nENDIF\n', '\nENDIF\n\n').encode(), meta=dict(gen='special-repl', sample=False, no_model=True)))
@@ -60,6 +107,13 @@ def generate(tier, rng):
     return cases
 
 def intrinsic(case, io, ia):
+    if case.meta.get('gen') == 'case-grid':
+        got = io.stdout.decode('latin-1').split('\n')
+        if got and got[-1] == '': got = got[:-1]
+        want = case.meta['expect_lines']
+        if got != want:
+            k = next((i for i in range(min(len(got), len(want))) if got[i] != want[i]), min(len(got), len(want)))
+            return 'CASE chose the wrong clause: output line %d is %r, expected %r' % (k + 1, got[k] if k < len(got) else None, want[k] if k < len(want) else None)
     if case.meta.get('gen') == 'for-cube':
         out = io.stdout.decode().split('\n')
         pos = 0
